@@ -692,6 +692,9 @@ class Explorer:
         return [r or "none" for r in res], points
 
 
+MAX_SINGLE = 80           # single preemptions per thread and scenario (never reached on the unchanged tree: 30-60 points per thread)
+
+
 def explore(threads, bound: int, rng: random.Random, budget: int, points: str = "all"):
     """outcome sets of every thread over the schedules with at most `bound` preemptions (all single preemptions; a seeded
     sample of `budget` double preemptions); returns (sets, runs, points, first schedule per outcome)"""
@@ -714,18 +717,27 @@ def explore(threads, bound: int, rng: random.Random, budget: int, points: str = 
     # one preemption: thread i passes k points, all the others run to their end, i resumes
     for i in range(n):
         others = [j for j in range(n) if j != i]
-        for k in range(0, pts[i] + 1):
+        ks = list(range(0, pts[i] + 1))
+        if len(ks) > MAX_SINGLE:            # a hot function became a scheduling region (a changed tree): seeded sample, the run stays quick
+            ks = sorted(rng.sample(ks, MAX_SINGLE))
+        for k in ks:
             do([(i, k)], others + [i])
     if bound >= 2:
         cand = []
-        for i in range(n):
-            for j in range(n):
-                if i == j:
-                    continue
-                for k1 in range(0, pts[i] + 1):
-                    for k2 in range(1, pts[j] + 1):
-                        cand.append((i, k1, j, k2))
-        rng.shuffle(cand)
+        if sum((pts[i] + 1) * pts[j] for i in range(n) for j in range(n) if i != j) > 200000:
+            pairs = [(i, j) for i in range(n) for j in range(n) if i != j and pts[j] >= 1]     # too many to list: draw them
+            for _ in range(budget if pairs else 0):
+                i, j = rng.choice(pairs)
+                cand.append((i, rng.randrange(0, pts[i] + 1), j, rng.randrange(1, pts[j] + 1)))
+        else:
+            for i in range(n):
+                for j in range(n):
+                    if i == j:
+                        continue
+                    for k1 in range(0, pts[i] + 1):
+                        for k2 in range(1, pts[j] + 1):
+                            cand.append((i, k1, j, k2))
+            rng.shuffle(cand)
         for (i, k1, j, k2) in cand[:budget]:
             rest = [x for x in range(n) if x not in (i, j)]
             do([(i, k1), (j, k2)], [i] + rest + [j])
